@@ -1071,6 +1071,9 @@ func (c *otApplyContext) applyLookupContext2(data tables.SequenceContextFormat2,
 // using `indices` as an internal buffer to avoid allocations
 // these indices are used to refer to coverage
 func get1N(indices *[]uint16, start, end int) []uint16 {
+	if end <= start { // empty sequence (a format 3 context with no input coverage)
+		return nil
+	}
 	if end > cap(*indices) {
 		*indices = make([]uint16, end)
 		for i := range *indices {
